@@ -510,10 +510,23 @@ def schedule(modname, fams, idxs, opts, jobs):
     the family is reported undecided -- never as passed)"""
     ctxm = mp.get_context('fork')
     pending = list(idxs)
-    # longest budgets first
+    cap = opts.get('wall_cap_s')
+    t_start = time.time()
+    if cap and len(pending) > 1:
+        # under a wall cap the families are started in a seeded random order: what is explored within the cap is an unbiased
+        # part of the family list and changes with VERIF_SEED
+        import random as _r
+        _r.Random(opts.get('seed', 0)).shuffle(pending)
     running = {}
     results = []
     while pending or running:
+        if cap and pending and time.time() - t_start > cap:
+            for i in pending:
+                r = _dead_result(fams[i], 'not started: wall cap of the tier reached')
+                r['skipped'] = True
+                results.append(r)
+            pending = []
+            continue
         while pending and len(running) < jobs:
             i = pending.pop(0)
             pr, pw = ctxm.Pipe(duplex=False)
@@ -572,6 +585,10 @@ def main_check(prop, modname, tier, seed, level_note, bounds, outside_claim, ass
                 timeout_ms=getattr(mod, 'TIMEOUT_MS', {}).get(tier, 3000 if tier == 'quick' else 10000),
                 slow_ms=getattr(mod, 'SLOW_MS', {}).get(tier, 15000 if tier == 'quick' else 60000),
                 extra_witnesses=getattr(mod, 'EXTRA_WITNESSES', {}).get(tier, 2 if tier == 'quick' else 6))
+    # the thorough tier starts families (in seeded random order) for at most WALL_CAP seconds; families not started are listed
+    # in the evidence as not run and nothing is claimed for them
+    cap = os.environ.get('VERIF_WALL_CAP')
+    opts['wall_cap_s'] = float(cap) if cap else (getattr(mod, 'WALL_CAP', {}).get(tier) or (1500 if tier == 'thorough' else None))
     jobs = jobs or min(16, os.cpu_count() or 4)
     results = schedule(modname, fams, idxs, opts, jobs)
     twins = run_twins(mod, modname, fams, opts, jobs) if not only else []
@@ -631,6 +648,8 @@ def finish(prop, tier, seed, results, t0, level_note, bounds, outside_claim, ass
                 viol_known.setdefault(k['id'], []).append(v)
             else:
                 viol_new.append(v)
+    skipped = [r for r in results if r.get('skipped')]
+    results = [r for r in results if not r.get('skipped')]
     decided = [r for r in results if r['decided']]
     undecided = [r for r in results if not r['decided']]
     diverged = [dict(family=r['family'], **d) for r in results for d in r['diverged']]
@@ -684,6 +703,7 @@ def finish(prop, tier, seed, results, t0, level_note, bounds, outside_claim, ass
         lattice_witnesses_replayed=sum(r.get('lattice_witnesses', 0) for r in results),
         samples=samples,
         families=len(results), families_decided=len(decided),
+        families_not_started_wall_cap=dict(count=len(skipped), families=[r['family'] for r in skipped][:400]),
         families_undecided=[dict(family=r['family'], errors=r['errors'][:2], missing_outcomes=r.get('missing_outcomes')) for r in undecided][:40],
         outcome_classes={r['family']: r['outcomes'] for r in results},
         slowest_families=sorted(((r['wall_s'], r['family'], r['paths']) for r in results), reverse=True)[:8],
@@ -706,6 +726,9 @@ def finish(prop, tier, seed, results, t0, level_note, bounds, outside_claim, ass
     json.dump(ev, open(os.path.join(OUTDIR, 'evidence', '%s.json' % prop), 'w'), indent=1, default=str)
     for l in lines:
         print(l)
+    if skipped:
+        print('%s: %d further families were not started (wall cap of the %s tier); they are listed in the evidence, nothing is claimed for them' % (
+            prop, len(skipped), tier))
     print('%s tier=%s families=%d decided=%d paths=%d queries=%d (unsat %d, sat %d, unknown %d) solver_s=%.1f validated=%d wall=%.1fs' % (
         prop, tier, len(results), len(decided), paths, tot.queries, tot.unsat, tot.sat, tot.unknown, tot.solver_s,
         cov['traces_validated_against_impl'], time.time() - t0))
